@@ -64,6 +64,9 @@ def main(argv):
             if r.returncode != 0:
                 r = subprocess.run(['patch', '-p1', '-d', d, '-i', p], capture_output=True, text=True)
             if r.returncode != 0:
+                if not m.get('counted', True):
+                    print('%-46s NOT-COUNTED (no longer applies: the code it changed was replaced by a repair, see meta.json)' % name)
+                    continue
                 print('%-46s PATCH DOES NOT APPLY: %s' % (name, (r.stderr or r.stdout)[-300:]))
                 missed += 1
                 continue
@@ -86,7 +89,7 @@ def main(argv):
             if not ok and counted:
                 missed += 1
             rows.append((name, ok))
-            print('%-46s %s  %s%s' % (name, 'CAUGHT' if ok else ('MISSED' if counted else 'NOT-COUNTED (outside the property as stated, see meta.json)'),
+            print('%-46s %s  %s%s' % (name, 'CAUGHT' if ok else ('MISSED' if counted else 'NOT-COUNTED (see meta.json)'),
                                       ' '.join('%s:%s(%s,%.0fs)' % (p_, 'y' if h else 'n', t, s) for p_, h, t, s in caught),
                                       '' if suite_ok is None else ('  suite:%s' % ('pass' if suite_ok else 'FAIL'))))
         finally:
